@@ -9,7 +9,9 @@
 
    One channel.  State = its runtime meta row, the migration task table and the
    active-task index entry of the channel.  One action per FSM command, applied as a
-   one-command apply batch.  The reply is the apply result: "ok" or "stale" (stale_meta:
+   one-command apply batch, plus Batch2: two commands in ONE apply batch (creates, a
+   runtime-meta upsert, a create for another channel; see the section "Two commands in
+   one apply batch").  The reply is the apply result: "ok" or "stale" (stale_meta:
    every ErrConflict / ErrNotFound / ErrAlreadyExists of these commands ends there and
    leaves the database untouched).
 
@@ -45,6 +47,7 @@ CONSTANTS
   TGs,          \* task-guard variants: "ok" / "stale"
   Exts,         \* kinds of runtime-meta upserts from outside the migration: "le","ce","fence","ld<n>"
   WfExtra,      \* which of the executor's side exits Next explores: subset of {"blocked", "failed"}
+  BatchRGs,     \* guard variants of the creates inside two-command batches: "none", "ok", stale field
   MaxCE, MaxLE, MaxFver,   \* bounds for exhaustive runs (enabling conditions of Next)
   LateReset     \* TRUE: Next also resets an expired fence AFTER the cutover (named deviation)
 
@@ -134,13 +137,15 @@ ClearMetaFence(M) == [M EXCEPT !.ftok = "", !.fver = M.fver + 1]
 ClearTaskFenceProof(T) == [T EXCEPT !.ftok = "", !.fver = 0, !.proof = NoProof]
 
 \* stageUpsertChannelMigrationTask: the active index follows the task's status.
-Upsert(t, nT) ==
+\* (tk, ac): the task table and the raw index entry the statement reads and writes.
+UpsertOn(tk, ac, t, nT) ==
   IF Active(nT)
-    THEN IF active \notin {"", t} /\ tasks[active].present /\ Active(tasks[active])
-           THEN [ok |-> FALSE, tasks |-> tasks, active |-> active]      \* ErrAlreadyExists
-           ELSE [ok |-> TRUE, tasks |-> [tasks EXCEPT ![t] = nT], active |-> t]
-    ELSE [ok |-> TRUE, tasks |-> [tasks EXCEPT ![t] = nT],
-          active |-> IF tasks[t].present /\ Active(tasks[t]) THEN "" ELSE active]
+    THEN IF ac \notin {"", t} /\ tk[ac].present /\ Active(tk[ac])
+           THEN [ok |-> FALSE, tasks |-> tk, active |-> ac]             \* ErrAlreadyExists
+           ELSE [ok |-> TRUE, tasks |-> [tk EXCEPT ![t] = nT], active |-> t]
+    ELSE [ok |-> TRUE, tasks |-> [tk EXCEPT ![t] = nT],
+          active |-> IF tk[t].present /\ Active(tk[t]) THEN "" ELSE ac]
+Upsert(t, nT) == UpsertOn(tasks, active, t, nT)
 
 \* Common tail of every command: accepted (and the index admits the row) or stale.
 Done(e, t, ok, nT, nM, nc) ==
@@ -168,18 +173,29 @@ Init ==
   /\ cut = [t \in Tasks |-> "none"]
   /\ ev = [a |-> "Init", cfg |-> [tmpl |-> cfg.tmpl, meta |-> EvMeta(cfg.meta)]]
 
-\* CreateChannelMigrationTask / ...WithRuntimeGuard (rg = "none": the unguarded command).
+\* The state a command reads and writes, as a value (so that commands can be composed).
+St == [meta |-> meta, tasks |-> tasks, active |-> active, cut |-> cut]
+
+\* CreateChannelMigrationTask / ...WithRuntimeGuard (rg = "none": the unguarded command)
+\* as a one-command apply batch on state S with runtime guard g: new state and reply.
+CreateOn(S, t, rg, g) ==
+  LET T  == S.tasks[t]
+      up == UpsertOn(S.tasks, S.active, t, Row(cfg.tmpl[t]))
+  IN IF T.present
+       THEN \* the same row again is an accepted no-op (before any guard is looked at)
+            [st |-> S, r |-> IF T.pristine THEN "ok" ELSE "stale"]
+       ELSE IF (rg = "none" \/ GuardMatches(S.meta, g)) /\ up.ok
+              THEN [st |-> [S EXCEPT !.tasks = up.tasks, !.active = up.active, !.cut[t] = "none"],
+                    r |-> "ok"]
+              ELSE [st |-> S, r |-> "stale"]
+
 Create(t, rg) ==
-  LET T  == tasks[t]
-      nT == Row(cfg.tmpl[t])
-      g  == Guard(meta, IF rg = "none" THEN "ok" ELSE rg)
-      e  == [a |-> "Create", t |-> t, rg |-> rg, g |-> g]
+  LET g == Guard(meta, IF rg = "none" THEN "ok" ELSE rg)
+      e == [a |-> "Create", t |-> t, rg |-> rg, g |-> g]
+      o == CreateOn(St, t, rg, g)
   IN /\ UNCHANGED cfg
-     /\ IF T.present
-          THEN \* the same row again is an accepted no-op (before any guard is looked at)
-               /\ UNCHANGED <<tasks, active, meta, cut>>
-               /\ ev' = e @@ [res |-> [r |-> IF T.pristine THEN "ok" ELSE "stale"]]
-          ELSE Done(e, t, GuardMatches(meta, g), nT, meta, "none")
+     /\ tasks' = o.st.tasks /\ active' = o.st.active /\ meta' = o.st.meta /\ cut' = o.st.cut
+     /\ ev' = e @@ [res |-> [r |-> o.r]]
 
 \* ClaimChannelMigrationTask as MigrationStore.Claim issues it: Status = Running, Phase kept.
 \* `exp`: the stored owner lease is expired at the claimant's NowMS.
@@ -350,15 +366,108 @@ GC(lim, old) ==
 \* fence fields of the others are zero and are preserved.
 LdKinds == [ld1 |-> 1, ld2 |-> 2, ld3 |-> 3, ld4 |-> 4]
 IsLd(k) == k \in DOMAIN LdKinds
+ExtMeta(M, k) ==
+  CASE k = "le" -> [M EXCEPT !.le = M.le + 1]
+    [] k = "ce" -> [M EXCEPT !.ce = M.ce + 1]
+    [] k = "fence" -> [M EXCEPT !.ftok = "x", !.fver = M.fver + 1]
+    [] OTHER -> [M EXCEPT !.le = M.le + 1, !.leader = LdKinds[k]]
+ExtOK(M, k) == IsLd(k) => LdKinds[k] \in M.isr /\ LdKinds[k] # M.leader
 Ext(k) ==
-  LET nM == CASE k = "le" -> [meta EXCEPT !.le = meta.le + 1]
-              [] k = "ce" -> [meta EXCEPT !.ce = meta.ce + 1]
-              [] k = "fence" -> [meta EXCEPT !.ftok = "x", !.fver = meta.fver + 1]
-              [] OTHER -> [meta EXCEPT !.le = meta.le + 1, !.leader = LdKinds[k]]
-  IN /\ (IsLd(k) => LdKinds[k] \in meta.isr /\ LdKinds[k] # meta.leader)
+  LET nM == ExtMeta(meta, k)
+  IN /\ ExtOK(meta, k)
      /\ meta' = nM
      /\ UNCHANGED <<tasks, active, cut, cfg>>
      /\ ev' = [a |-> "Ext", k |-> k, m |-> EvMeta(nM), res |-> [r |-> "ok"]]
+
+-------------------------------------------------------------------------------
+\* Two commands in one apply batch (stateMachine.ApplyBatch with two entries, as Raft
+\* delivers the proposals of two racing planners).  Batch commands are the creates
+\* (plain / guarded), a runtime-meta upsert from outside (at most one per batch) and
+\* "Other": the unguarded create of a task for ANOTHER channel of the same hash slot
+\* (always the same row, so its reply is "ok" whatever came before).  Both commands were
+\* built by proposers that read the state BEFORE the batch: the runtime guards (g) and
+\* the upserted row refer to the pre-batch meta row.  Batches that contain Claim /
+\* Advance / ... / GC are outside the domain: the commit-time index maintenance reads
+\* the committed database instead of the batch (known finding
+\* channel-migration-multi-command-batch of C13); create batches do not depend on it
+\* BECAUSE of the stage-time reservation transcribed below (C17_BatchAsSequence).
+\*
+\* What the code does (pkg/slot/fsm/statemachine.go ApplyBatch, pkg/db/meta/compat.go
+\* WriteBatch.CreateChannelMigrationTask[WithRuntimeGuard], batch.go Batch.Commit):
+\*   stage, command by command, on one WriteBatch:
+\*     guarded create: its guard operation is queued first, unconditionally; then
+\*     create: a task id already staged in this batch (WriteBatch.migrationCreates, same
+\*       row) -> reply ok, nothing queued; else the channel's active-index key already
+\*       reserved in this batch (Batch.migrationActive) -> ErrAlreadyExists, reply stale,
+\*       nothing queued, the batch goes on; else reserve the key, queue the create;
+\*     upsert: queued;
+\*   commit: the queued operations run in order over the batch overlay of task rows and
+\*     meta rows (batchCommitState.loadChannelMigrationTask / loadRuntimeMeta), but
+\*     ensureChannelMigrationActiveAvailable reads the COMMITTED index entry and row;
+\*     any ErrConflict / ErrNotFound / ErrAlreadyExists fails the whole batch, nothing is
+\*     written, and ApplyBatch applies every command again as a one-command batch
+\*     (applyCommandsIndividuallyAfterStaleCommit); otherwise the staged replies stand.
+BCreate(t, rg) == [a |-> "Create", t |-> t, rg |-> rg, k |-> ""]
+BExt(k)        == [a |-> "Ext", t |-> "", rg |-> "", k |-> k]
+BOther         == [a |-> "Other", t |-> "", rg |-> "", k |-> ""]
+\* the command as proposed against meta row M (its guard; uniform shape)
+Proposed(c, M) == c @@ [g |-> Guard(M, IF c.a = "Create" /\ c.rg # "none" THEN c.rg ELSE "ok")]
+
+\* one command (with its guard) as a one-command apply batch on S
+One(S, c) ==
+  CASE c.a = "Create" -> CreateOn(S, c.t, c.rg, c.g)
+    [] c.a = "Ext"    -> [st |-> [S EXCEPT !.meta = ExtMeta(S.meta, c.k)], r |-> "ok"]
+    [] OTHER          -> [st |-> S, r |-> "ok"]
+SeqOut(S, c1, c2) ==
+  LET o1 == One(S, c1)
+      o2 == One(o1.st, c2)
+  IN [st |-> o2.st, rs |-> <<o1.r, o2.r>>]
+
+\* staging: bs = [resv: the channel's active-index key is reserved, staged: task ids with
+\* a queued create, ops: queued operations, rs: replies so far]
+StageOne(bs, c) ==
+  LET gops == IF c.a = "Create" /\ c.rg # "none"
+                THEN Append(bs.ops, [op |-> "guard", t |-> c.t, g |-> c.g, k |-> ""]) ELSE bs.ops
+  IN CASE c.a = "Create" ->
+            IF c.t \in bs.staged THEN [bs EXCEPT !.ops = gops, !.rs = Append(@, "ok")]
+            ELSE IF bs.resv /\ Active(Row(cfg.tmpl[c.t])) THEN [bs EXCEPT !.ops = gops, !.rs = Append(@, "stale")]
+            ELSE [resv |-> bs.resv \/ Active(Row(cfg.tmpl[c.t])), staged |-> bs.staged \cup {c.t},
+                  ops |-> Append(gops, [op |-> "create", t |-> c.t, g |-> c.g, k |-> ""]),
+                  rs |-> Append(bs.rs, "ok")]
+       [] c.a = "Ext" -> [bs EXCEPT !.ops = Append(@, [op |-> "ext", t |-> "", g |-> c.g, k |-> c.k]),
+                                    !.rs = Append(@, "ok")]
+       [] OTHER -> [bs EXCEPT !.rs = Append(@, "ok")]    \* touches nothing of this channel
+\* one queued operation at commit: O = [st: overlay, ok: no error so far], S0 = committed
+CommitOp(O, S0, op) ==
+  IF ~O.ok THEN O
+  ELSE CASE op.op = "guard" ->
+              LET T == O.st.tasks[op.t] IN
+              IF T.present THEN [O EXCEPT !.ok = T.pristine]
+              ELSE [O EXCEPT !.ok = GuardMatches(O.st.meta, op.g)]
+         [] op.op = "create" ->
+              LET T    == O.st.tasks[op.t]
+                  nT   == Row(cfg.tmpl[op.t])
+                  busy == /\ Active(nT) /\ S0.active \notin {"", op.t}
+                          /\ S0.tasks[S0.active].present /\ Active(S0.tasks[S0.active])
+              IN IF T.present THEN [O EXCEPT !.ok = T.pristine]
+                 ELSE IF busy THEN [O EXCEPT !.ok = FALSE]
+                 ELSE [O EXCEPT !.st.tasks[op.t] = nT, !.st.cut[op.t] = "none",
+                                !.st.active = IF Active(nT) THEN op.t ELSE @]
+         [] OTHER -> [O EXCEPT !.st.meta = ExtMeta(@, op.k)]
+BatchOut(S, c1, c2) ==
+  LET bs == StageOne(StageOne([resv |-> FALSE, staged |-> {}, ops |-> <<>>, rs |-> <<>>], c1), c2)
+      O  == FoldLeft(LAMBDA o, op : CommitOp(o, S, op), [st |-> S, ok |-> TRUE], bs.ops)
+  IN IF O.ok THEN [st |-> O.st, rs |-> bs.rs] ELSE SeqOut(S, c1, c2)
+
+Batch2(c1, c2) ==
+  LET p1 == Proposed(c1, meta)
+      p2 == Proposed(c2, meta)
+      o  == BatchOut(St, p1, p2)
+  IN /\ \A c \in {c1, c2} : c.a = "Ext" => ExtOK(meta, c.k)
+     /\ UNCHANGED cfg
+     /\ tasks' = o.st.tasks /\ active' = o.st.active /\ meta' = o.st.meta /\ cut' = o.st.cut
+     /\ ev' = [a |-> "Batch2", cs |-> <<p1, p2>>,
+               res |-> [r |-> IF "ok" \in {o.rs[1], o.rs[2]} THEN "ok" ELSE "stale", rs |-> o.rs]]
 
 -------------------------------------------------------------------------------
 \* Argument domains of Next.
@@ -424,10 +533,14 @@ NxClearFence == \E t \in Tasks, v \in GVariants : tasks[t].present /\ ClearFence
 NxAbort      == \E t \in Tasks, v \in GVariants : tasks[t].present /\ Abort(t, v[1], v[2]) /\ Bound'
 NxGC         == \E lim \in 1..Cardinality(Tasks), old \in BOOLEAN : GC(lim, old)
 NxExt        == \E k \in Exts : Ext(k) /\ Bound'
+\* two-command batches: at least one create, at most one upsert from outside
+BCmds        == {BCreate(t, rg) : t \in Tasks, rg \in BatchRGs} \cup {BExt(k) : k \in Exts} \cup {BOther}
+BatchShape(c1, c2) == "Create" \in {c1.a, c2.a} /\ ~(c1.a = "Ext" /\ c2.a = "Ext")
+NxBatch2     == \E c1, c2 \in BCmds : BatchShape(c1, c2) /\ Batch2(c1, c2) /\ Bound'
 
 Next ==
   \/ NxCreate \/ NxClaim \/ NxAdvance \/ NxSetFence \/ NxResetFence \/ NxCommit
-  \/ NxAddLearner \/ NxPromote \/ NxClearFence \/ NxAbort \/ NxGC \/ NxExt
+  \/ NxAddLearner \/ NxPromote \/ NxClearFence \/ NxAbort \/ NxGC \/ NxExt \/ NxBatch2
 
 Spec == Init /\ [][Next]_vars
 
@@ -469,16 +582,19 @@ C17_ProofCurrent ==
         /\ tasks[ev'.t].proof = [fv |-> meta.fver, ce |-> meta.ce, le |-> meta.le, ld |-> meta.leader]
         /\ meta.ftok = ev'.t /\ tasks[ev'.t].ftok = ev'.t /\ tasks[ev'.t].fver = meta.fver]_vars
 
+\* the step is, or carries, a runtime-meta upsert from outside the migration
+HasExt(e) == e.a = "Ext" \/ (e.a = "Batch2" /\ \E i \in 1..2 : e.cs[i].a = "Ext")
+
 \* Membership and leadership move only by the commands that are meant to move them.
 C17_CutoverOnlyByCommit ==
   [][ev'.a # "Init" =>
-       /\ (meta'.leader # meta.leader => ev'.a \in {"Commit", "Ext"})
+       /\ (meta'.leader # meta.leader => ev'.a = "Commit" \/ HasExt(ev'))
        /\ (meta'.isr # meta.isr => ev'.a = "Promote")
        /\ (meta'.rep # meta.rep => ev'.a \in {"AddLearner", "Promote", "Abort"})]_vars
 
 \* No command overwrites or clears a fence whose token belongs to another task.
 C17_FenceOwner ==
-  [][(ev'.a \notin {"Ext", "Init"} /\ (meta'.ftok # meta.ftok \/ meta'.fver # meta.fver)) =>
+  [][(ev'.a # "Init" /\ ~HasExt(ev') /\ (meta'.ftok # meta.ftok \/ meta'.fver # meta.fver)) =>
         /\ ev'.a \in {"SetFence", "ResetFence", "ClearFence", "Abort"}
         /\ meta.ftok \in {"", ev'.t}
         /\ meta'.ftok \in {"", ev'.t}
@@ -487,6 +603,17 @@ C17_FenceOwner ==
 \* A rejected command changes nothing.
 C17_RejectedUnchanged ==
   [][(ev'.a # "Init" /\ ev'.res.r = "stale") => (meta' = meta /\ tasks' = tasks /\ active' = active)]_vars
+
+\* A two-command batch of the modelled shapes ends exactly where the same two commands,
+\* applied one after the other as one-command batches, end, reply by reply.  (Model lemma:
+\* it is what keeps Batch2 clear of the known batch-transparency finding of C13, and it
+\* rests on the stage-time reservation: without `resv` in StageOne two creates for
+\* different task ids would both commit and C17_OneActive would fail.)
+C17_BatchAsSequence ==
+  [][ev'.a = "Batch2" =>
+       LET s == SeqOut(St, ev'.cs[1], ev'.cs[2])
+       IN meta' = s.st.meta /\ tasks' = s.st.tasks /\ active' = s.st.active /\ cut' = s.st.cut
+          /\ ev'.res.rs = s.rs]_vars
 
 \* An abort is accepted only before the cutover.
 C17_AbortOnlyBeforeCutover ==
@@ -515,6 +642,7 @@ CfgsEmbedded == {[tmpl |-> Tm(RR14, LTv), meta |-> M2]}
 CfgsSim      == {[tmpl |-> Tm(a, b), meta |-> m] : a \in {LT12, RR34, RR14}, b \in {LT12, RR34, RR14, LTv}, m \in {M3, M2, M13}}
 
 StalesFresh    == {{}}
+StalesQuick3   == {{}, {"fv"}, {"le"}}
 StalesQuick    == {{}, {"fv"}, {"ce"}, {"le"}, {"ld"}}
 StalesMid      == StalesQuick \cup {{"fv", "ce", "le", "ld"}}
 StalesThorough == SUBSET {"fv", "ce", "le", "ld"}
